@@ -17,12 +17,13 @@
    of d is older than every lifecycle event of c, or d transitively REQUESTED c (d was still being created,
    waiting for c: it depends back on c).  "Requests" are the components the property pipeline proposes for
    the holder's points ([plan]).
-   NOT proved in Rocq (decided on every run by the oracle [lazy_only_if_needed] of Corr/WiringOracles.v and by
-   the exact log correspondence): "a lazy component is created only if an eager one (transitively) needs
-   it" in its positive form; what is proved about laziness is [c05_uncreated_untouched] and exactly-once. *)
+   [c05_lazy_only_if_needed] (Proofs/FactoryDeps.v, invariant ND): a component that has any lifecycle event is
+   not LazyInit (the container itself asks for it: Refresh, or PrepareComponents for post-processors), or it
+   is reachable through requests from a PUBLISHED component that is not LazyInit.  The oracle
+   [lazy_only_if_needed] of Corr/WiringOracles.v checks the same on the implementation's log on every run. *)
 From Coq Require Import List Arith Bool ZArith.
 From IocVerif Require Import Model.App Proofs.FactoryLifecycle Proofs.FactoryInvariant Proofs.FactoryNoPanic
-  Proofs.FactoryWiring Proofs.FactoryDeps.
+  Proofs.FactoryWiring Proofs.FactoryDeps Proofs.FactoryBasics.
 Import ListNotations.
 
 (* one lifecycle block per published component; none for the others *)
@@ -116,6 +117,23 @@ Proof.
   intros s st H Hp Hs. exact (run_core_DF repaired (normalise repaired s) st eq_refl eq_refl eq_refl eq_refl Hp Hs H).
 Qed.
 
+(* LazyInit components are initialised only if an eagerly created component (transitively) needs them *)
+Theorem c05_lazy_only_if_needed : forall s st n c,
+  run repaired s = Ok st ->
+  procs_pointless_b (normalise repaired s) = true -> stages_ok_b (normalise repaired s) = true ->
+  get_comp (s_pop s) n = Some c -> sub n (log st) <> [] ->
+  c_lazy c = false
+  \/ exists a, is_lazy (s_pop s) a = false /\ alookup a (L1 (reg st)) <> None
+               /\ dep repaired (normalise repaired s) a n.
+Proof.
+  intros s st n c H Hp Hs Hc Hsub. pose proof (c05_lifecycle s st H n c Hc) as HL.
+  assert (Hcached : cached (reg st) n = true).
+  { unfold cached. destruct (alookup n (L1 (reg st))); [reflexivity|contradiction]. }
+  destruct (run_core_needed repaired (normalise repaired s) st eq_refl eq_refl eq_refl eq_refl Hp Hs H n Hcached)
+    as [Hr|Hex]; [left|right; exact Hex].
+  cbn [normalise s_pop] in Hr. unfold is_lazy in Hr. rewrite Hc in Hr. exact Hr.
+Qed.
+
 (* in particular: no Init of d between the start of the log and the Init of c *)
 Theorem c05_init_order : forall d c l l1 l2,
   older d c l -> l = l1 ++ EvInit c :: l2 -> ~ In (EvInit d) l1.
@@ -146,3 +164,24 @@ Example c05_example :
   | Fail _ _ => False
   end.
 Proof. vm_compute. repeat split. Qed.
+
+(* the same diamond with its bottom (component 4) LazyInit: it is created because 2 and 3 request it *)
+Definition ex_pop5_lazy : population :=
+  [ mkComp 100 [] false None false true [] [] [] None None None false (Some (Ord 2, PBuiltin BWire));
+    mkComp 101 [] false None false true [] [] [] None None None false (Some (Ord 4, PBuiltin BFurther));
+    mkComp 0 [] false None false false [] [mkPoint false (TPtr 2) SByType None true] [] None (Some false) None false None;
+    mkComp 1 [] false None false false [] [mkPoint false (TPtr 2) SByType None true] [] (Some false) (Some false) None false None;
+    mkComp 2 [] false None false true [] [] [] None (Some false) None false None;
+    mkComp 4 [] false None false true [] [] [] None (Some false) None false None ].
+
+Example c05_example_lazy_needed :
+  match run repaired (mkScn ex_pop5_lazy [] false None []) with
+  | Ok st => sub 4 (log st) <> [] /\ sub 5 (log st) = [] /\ is_lazy ex_pop5_lazy 2 = false
+             /\ dep repaired (normalise repaired (mkScn ex_pop5_lazy [] false None [])) 2 4
+  | Fail _ _ => False
+  end.
+Proof.
+  vm_compute run. split; [vm_compute; discriminate|]. split; [reflexivity|]. split; [reflexivity|].
+  apply dep1. eexists _, _, 0, _. split; [reflexivity|]. split; [vm_compute; reflexivity|].
+  split; [reflexivity|]. left. reflexivity.
+Qed.
